@@ -261,6 +261,17 @@ class Engine:
         if isinstance(base, NoneV):
             self.may_raise(st, FALSE, "AttributeError", txt)
             return NoneV()
+        if isinstance(base, V) and isinstance(base.ty, TOpt) and isinstance(base.ty.inner, TRef):
+            self.may_raise(st, self.decls.is_some(base.t), "AttributeError", txt)
+            base = V(base.ty.inner, self.decls.opt_val(base.t))
+        if isinstance(base, V) and isinstance(base.ty, TRef):
+            c = self.spec_contract or self.c
+            fty = c.ref_fields.get((base.ty.cls, node.attr)) or self.c.ref_fields.get((base.ty.cls, node.attr))
+            if fty is not None:
+                f = self.decls.fun(f"{base.ty.cls}.{node.attr}", [base.t.sort], sort_of(fty, self.decls))
+                return wrap(self, fty, f(base.t))
+            if (base.ty.cls, node.attr) not in self.c.ref_methods and not any(k.endswith("." + node.attr) for k in self.c.calls):
+                raise GenerationError(f"field {base.ty.cls}.{node.attr} is not declared in the contract's ref_fields")
         return FnV("method", recv=base, name=node.attr, node=node.value)
 
     def e_Subscript(self, node, st, spec):
@@ -561,6 +572,14 @@ class Engine:
                 if new is not None:
                     self.store(fn.node, new, st)
                 return res
+        if isinstance(recv, V) and isinstance(recv.ty, TRef):
+            sig = self.c.ref_methods.get((recv.ty.cls, fn.name))
+            if sig is not None:
+                arg_tys, ret = sig
+                cargs = [coerce(self, a, t) for a, t in zip(args, arg_tys)]
+                f = self.decls.fun(f"{recv.ty.cls}.{fn.name}()", [recv.t.sort] + [sort_of(t, self.decls) for t in arg_tys],
+                                   sort_of(ret, self.decls))
+                return wrap(self, ret, f(recv.t, *[a.t for a in cargs]))
         if isinstance(recv, DictV) and fn.name == "get":
             k = pyops._const_str(args[0])
             dflt = args[1] if len(args) > 1 else NoneV()
